@@ -41,11 +41,16 @@ def r04_1(ctx):
             region, cs = arm_calls(v)
             names = [d.split('::')[-1] for bi, d, ct in cs]
             if v == 'Round':
-                ok = 'join_round' in names and 'bevel' not in names and 'line_intersection' not in names
-                if ok:
+                ok = ('join_round' in names or 'arc' in names) and 'bevel' not in names and 'line_intersection' not in names
+                if ok and 'join_round' in names:
                     jr = [ct for bi, d, ct in cs if d == ST + 'join_round'][0]
                     ok = jr[2][1] == ('param', 3) and const_val(jr[2][4]) is None
-                ctx.check(ok, R, key + '|Round', b.loc(), 'Round -> join_round(pt, n1, n2, offset)', 'the Round arm calls %s, expected join_round' % names)
+                elif ok:
+                    # the wrapper written out: arc(dest, pt.x, pt.y, radius, n1, n2) about the join point
+                    ar = [ct for bi, d, ct in cs if d == ST + 'arc'][0]
+                    cx, cy = field_path(strip_all(ar[2][1])), field_path(strip_all(ar[2][2]))
+                    ok = cx == (('param', 3), ['x']) and cy == (('param', 3), ['y']) and const_val(ar[2][3]) is None
+                ctx.check(ok, R, key + '|Round', b.loc(), 'Round -> join_round(pt, n1, n2, offset)', 'the Round arm calls %s, expected join_round (an arc about the join point)' % names)
             elif v == 'Bevel':
                 ok = names == ['bevel']
                 ctx.check(ok, R, key + '|Bevel', b.loc(), 'Bevel -> bevel()', 'the Bevel arm calls %s, expected exactly bevel' % names)
@@ -88,9 +93,10 @@ def r04_1(ctx):
                 ctx.check('arc' in names and names.count('move_to') == 1 and names[-1] == 'close', R, key + '|Round', b.loc(), 'Round -> closed half disc (arc)', 'the Round arm emits %s, expected a closed figure containing arc()' % names)
             else:
                 ctx.check('arc' not in names and names.count('move_to') == 1 and names.count('line_to') == 4 and names[-1] == 'close', R, key + '|Square', b.loc(), 'Square -> closed 5-vertex polygon', 'the Square arm emits %s, expected move_to, 4 x line_to, close and no arc' % names)
-    jr = ctx.body(ST + 'join_round', R)
-    ok = [d for bi, d, ct in calls_in(ctx, jr)] == [ST + 'arc']
-    ctx.check(ok, R, 'stroke::join_round|arc', jr.loc(), 'join_round -> arc', 'join_round does not delegate to arc()')
+    jr = ctx.body(ST + 'join_round', R, optional=True)
+    if jr is not None:
+        ok = [d for bi, d, ct in calls_in(ctx, jr)] == [ST + 'arc']
+        ctx.check(ok, R, 'stroke::join_round|arc', jr.loc(), 'join_round -> arc', 'join_round does not delegate to arc()')
 
 
 def both_some_guard(ctx, b, bi, locals_names):
